@@ -711,7 +711,7 @@ func (c *oblCtx) obligAssert(n *ast.TypeAssertExpr) {
 			}
 		}
 	}
-	if why, ok := justifiedOBL[c.fname+"|"+construct]; ok {
+	if why, ok := c.justifiedFor(n, construct); ok {
 		c.add("OBL-ASSERT", n, construct, VJustified, why, true)
 		return
 	}
@@ -857,7 +857,7 @@ func (c *oblCtx) obligIndex(n *ast.IndexExpr) {
 			}
 		}
 	}
-	if why, ok := justifiedOBL[c.fname+"|"+construct]; ok {
+	if why, ok := c.justifiedFor(n, construct); ok {
 		c.add("OBL-INDEX", n, construct, VJustified, why, true)
 		return
 	}
@@ -951,7 +951,7 @@ func (c *oblCtx) obligSlice(n *ast.SliceExpr) {
 			return
 		}
 	}
-	if why, ok := justifiedOBL[c.fname+"|"+construct]; ok {
+	if why, ok := c.justifiedFor(n, construct); ok {
 		c.add("OBL-SLICE", n, construct, VJustified, why, true)
 		return
 	}
@@ -992,7 +992,7 @@ func (c *oblCtx) checkAccessor(call *ast.CallExpr, fn *types.Func) {
 			}
 		}
 	}
-	if why, ok := justifiedOBL[c.fname+"|"+construct]; ok {
+	if why, ok := c.justifiedFor(call, construct); ok {
 		c.add("OBL-ACCESSOR", call, construct, VJustified, why, true)
 		return
 	}
@@ -1016,4 +1016,13 @@ func (c *oblCtx) reassigned(x string) bool {
 		return true
 	})
 	return n > 1
+}
+
+// justifiedFor looks a construct up in the table of justified obligations, by the function and the construct rendered
+// with its local variables replaced by their types (renaming a local, a parameter or a receiver keeps the entry).
+func (c *oblCtx) justifiedFor(e ast.Expr, construct string) (string, bool) {
+	if why, ok := justifiedOBL[c.fname+"|"+normLocals(c.info(), e)]; ok {
+		return why, true
+	}
+	return "", false
 }
